@@ -47,7 +47,12 @@ impl PrefixFileSet {
         {
             let dir_entry = dir_entry.map_err(|e| format!("error reading dir {dir:?}: {e:?}"))?;
             let path = dir_entry.path();
-            if path.starts_with(path_prefix) {
+            // `Path::starts_with` compares whole path components, so it never matches `prefix.suffix`.
+            if path
+                .as_os_str()
+                .as_encoded_bytes()
+                .starts_with(path_prefix.as_os_str().as_encoded_bytes())
+            {
                 let metadata = dir_entry.metadata().map_err(|e| {
                     format!("error reading metadata of {:?}: {e:?}", dir_entry.path())
                 })?;
